@@ -12,7 +12,8 @@ FLOAT_CONSTS = [0.0, 0.5, 1.0, 1.5, 2.0, 3.25, 100.0, 0.125, 1024.0, 7.75]
 
 
 class WasmGen:
-    def __init__(self, rng, nfuncs=None, max_depth=4, boundary_bias=0.3):
+    def __init__(self, rng, nfuncs=None, max_depth=4, boundary_bias=0.3, prefix="f"):
+        self.prefix = prefix
         self.rng = rng
         self.nfuncs = nfuncs or rng.randint(1, 12)
         self.max_depth = max_depth
@@ -47,8 +48,11 @@ class WasmGen:
         if t == INT and r < 0.25:
             ot = rng.choice([INT, FLOAT] + ([UINT, UINT] if any(ty == UINT for ty, _ in params) else []))
             return Bin(rng.choice(["==", "<", ">"]), self.expr(ot, params, depth + 1), self.expr(ot, params, depth + 1), INT)
-        op = rng.choice(["+", "-", "*", "+", "-", "*", "/"])
+        # (`%` is rare: the backend refuses it today, and one refused function refuses the whole module)
+        op = rng.choice(["+", "-", "*", "+", "-", "*", "/"]) if (t != INT or rng.random() > 0.015) else "%"
         l = self.expr(t, params, depth + 1)
+        if op == "%":
+            return Bin("%", l, IntLit(rng.choice([2, 3, 5, 7, -3, 16, 100])), INT)
         if op == "/":
             rr = IntLit(rng.choice([1, 2, 3, 7, -2, -5, 64, 128])) if t == INT else FloatLit(rng.choice([0.5, 2.0, 4.0, 1.5]))
         else:
@@ -63,10 +67,10 @@ class WasmGen:
             params = [(rng.choice([INT, FLOAT, INT, FLOAT, UINT]), "p%d" % k) for k in range(np_)]
             r = rng.random()
             if r < 0.1:
-                funcs.append(Func("f%d" % i, params, VOID, Block([Return(None)]), True))
+                funcs.append(Func("%s%d" % (self.prefix, i), params, VOID, Block([Return(None)]), True))
                 continue
             t = rng.choice([INT, FLOAT] + ([UINT] if any(ty == UINT for ty, _ in params) else []))
-            funcs.append(Func("f%d" % i, params, t, Block([Return(self.expr(t, params, 0))]), True))
+            funcs.append(Func("%s%d" % (self.prefix, i), params, t, Block([Return(self.expr(t, params, 0))]), True))
         return Module(funcs=funcs)
 
 
@@ -86,6 +90,7 @@ def outside_subset(rng):
         "cast": [Return(Bin("+", Bin("*", a, FloatLit(0.5), FLOAT), b, FLOAT))],
         "call": [Return(Bin("+", Call("h", [a], INT, h), b, INT))],
         "mod": [Return(Bin("%", Bin("*", a, a, INT), I(7), INT))],
+        "mod_signed": [Return(Bin("+", Bin("%", a, I(5), INT), Bin("%", Bin("+", a, b, INT), I(-3), INT), INT))],
         "logic": [Return(Bin("&&", a, b, INT))],
         "cmp_le": [Return(Bin("<=", a, b, INT))],
         "cmp_ne": [Return(Bin("!=", a, b, INT))],
